@@ -221,6 +221,13 @@ def r8_extension_rows_hang_on_the_named_base(ctx, res):
     from .c05 import r13_lexicon_lookups_by_id_and_version
     r13_lexicon_lookups_by_id_and_version(ctx, res)
 
+def r9_targets_are_all_selected_lexicons(ctx, res):
+    """translate() builds its target Wordnet from lang / lexicon: "exactly the target lexicons" needs every lexicon the request
+    selects to be in it - two installed versions of one id are two lexicons (selection analysis of C08-R4 / C08-R6)."""
+    from .c08 import r4_error_vs_empty, r6_selection_survives_missing_dependencies
+    r4_error_vs_empty(ctx, res)
+    r6_selection_survives_missing_dependencies(ctx, res)
+
 RULES = [
     ('C10-R1', r1_navigation, 30),
     ('C10-R2', r2_eq_hash, 12),
@@ -230,4 +237,5 @@ RULES = [
     ('C10-R6', r6_images, 3),
     ('C10-R7', r7_rows_describe_their_entity, 40),
     ('C10-R8', r8_extension_rows_hang_on_the_named_base, 2),
+    ('C10-R9', r9_targets_are_all_selected_lexicons, 10),
 ]
